@@ -338,6 +338,8 @@ func c16Invariants(r *vfw.Run, cands []ceremony.VerifCand, flips [][]byte, short
 // ---------------- the simulated ceremony ----------------
 
 type cerEpochFacts struct {
+	evidence        map[common.Address][]byte // first evidence transaction of each sender in the epoch's blocks
+	candidates      []common.Address          // lottery order (index = bit of the evidence bitmaps)
 	shortTx, longTx map[common.Address]bool
 	before          map[common.Address]state.Identity // at the lottery block
 	lotteryHeight   uint64
@@ -549,6 +551,10 @@ func runCeremony(r *vfw.Run, forC16 bool) {
 				facts.shortTx[snd] = true
 			case types.SubmitLongAnswersTx:
 				facts.longTx[snd] = true
+			case types.EvidenceTx:
+				if _, dup := facts.evidence[snd]; !dup && facts.evidence != nil {
+					facts.evidence[snd] = tx.Payload
+				}
 			}
 		}
 		r.State(fmt.Sprintf("%d/%x/%d", rr.Height, live[0].App.State.Root().Bytes()[:6], live[0].App.State.ValidationPeriod()))
@@ -556,6 +562,7 @@ func runCeremony(r *vfw.Run, forC16 bool) {
 			facts.before = map[common.Address]state.Identity{}
 			facts.lotteryHeight = rr.Height
 			facts.shortTx, facts.longTx = map[common.Address]bool{}, map[common.Address]bool{}
+			facts.evidence, facts.candidates = map[common.Address][]byte{}, nil
 			live[0].Do(func() {
 				for _, a := range s.AllActors() {
 					facts.before[a.Addr] = live[0].App.State.GetIdentity(a.Addr)
@@ -587,7 +594,7 @@ func runCeremony(r *vfw.Run, forC16 bool) {
 		// ---- C16: lottery agreement once every live replica has finished it (at the latest when the short session starts) ----
 		if per >= state.ShortSessionPeriod && !lotteryChecked && facts.before != nil {
 			lotteryChecked = true
-			c16InScenario(r, s, cer, live, forC16)
+			c16InScenario(r, s, cer, live, forC16, facts)
 		}
 		if finishing {
 			// ---- C17 oracles ----
@@ -674,6 +681,51 @@ func c17Rules(r *vfw.Run, s *scen.Scn, n *simnode.Node, f *cerEpochFacts) {
 	if f.before == nil {
 		return
 	}
+	// approval by the evidence maps, recomputed from the evidence transactions in the epoch's blocks: a candidate counts
+	// as present only if a strict majority of the maps (of senders that are candidates themselves) contains it
+	notApproved := map[common.Address]bool{}
+	if len(f.candidates) > 0 {
+		isCand := map[common.Address]bool{}
+		for _, c := range f.candidates {
+			isCand[c] = true
+		}
+		nmaps := 0
+		score := map[int]int{}
+		var senders []common.Address
+		for snd := range f.evidence {
+			senders = append(senders, snd)
+		}
+		sort.Slice(senders, func(i, j int) bool { return bytes.Compare(senders[i][:], senders[j][:]) < 0 })
+		for _, snd := range senders {
+			if !isCand[snd] {
+				continue
+			}
+			bm := common.NewBitmap(uint32(len(f.candidates)))
+			bm.Read(f.evidence[snd])
+			nmaps++
+			for _, v := range bm.ToArray() {
+				score[int(v)]++
+			}
+		}
+		for i, c := range f.candidates {
+			if 2*score[i] <= nmaps {
+				notApproved[c] = true
+			}
+		}
+		r.Probe(fmt.Sprintf("evidence_maps_on_chain_%d", nmaps))
+	}
+	n.Do(func() {
+		for _, a := range s.AllActors() {
+			if notApproved[a.Addr] {
+				after := n.App.State.GetIdentity(a.Addr)
+				if after.State == state.Newbie || after.State == state.Verified || after.State == state.Human {
+					b := f.before[a.Addr]
+					r.Violate("C17:identity-not-approved-by-a-majority-of-evidence-maps-is-validated", "%x: state %d -> %d although at most half of the evidence maps on chain contain it", a.Addr[:4], b.State, after.State)
+				}
+				r.Probe("candidate_not_approved_by_evidence")
+			}
+		}
+	})
 	n.Do(func() {
 		for _, a := range s.AllActors() {
 			before, ok := f.before[a.Addr]
@@ -700,7 +752,7 @@ func c17Rules(r *vfw.Run, s *scen.Scn, n *simnode.Node, f *cerEpochFacts) {
 
 // c16InScenario: lottery agreement across replicas (and with a restarted self), invariants on the real node's view,
 // and - after peers have re-synchronised - key delivery to exactly the assigned candidates.
-func c16InScenario(r *vfw.Run, s *scen.Scn, cer *scen.Cer, live []*simnode.Node, deep bool) {
+func c16InScenario(r *vfw.Run, s *scen.Scn, cer *scen.Cer, live []*simnode.Node, deep bool, facts *cerEpochFacts) {
 	var ref string
 	var refNode *simnode.Node
 	for _, n := range live {
@@ -721,6 +773,7 @@ func c16InScenario(r *vfw.Run, s *scen.Scn, cer *scen.Cer, live []*simnode.Node,
 		return
 	}
 	r.Probe("lottery_compared_across_replicas")
+	refNode.Do(func() { facts.candidates = append([]common.Address{}, refNode.VC.VerifLottery(1).Candidates...) })
 	if !deep {
 		return
 	}
